@@ -81,8 +81,19 @@ def run(U, rep, tier):
   else:
     grid = [(t, b) for t in range(1, 13) for b in range(1, 5)]
     rep.exhaustive = True
+  host_only = False
   for Tn, Bn in grid:
-    out, ref = one(I, Tn, Bn)
+    try:
+      out, ref = one(I, Tn, Bn) if not host_only else one(I, Tn, Bn, 0.95, 0.99)
+    except avn.OutOfFragment as e:
+      if 'abstract value' not in str(e):
+        raise
+      # compute_gae runs Python control flow on lambda_ / discount (e.g. `value or default`): they cannot be traced
+      # values then (JAX itself would refuse), only the host numbers a config passes -- instantiated as such
+      if not host_only:
+        rep.note('R19.1: lambda_ / discount are used in Python control flow (%s): instantiated as host numbers 0.95 / 0.99' % e)
+      host_only = True
+      out, ref = one(I, Tn, Bn, 0.95, 0.99)
     ok_shape = isinstance(out, (tuple, list)) and len(out) == 2
     if not ok_shape:
       rep.fail('R19.1', 'T=%d,B=%d' % (Tn, Bn), 'compute_gae does not return (vs, advantages)',
@@ -110,6 +121,8 @@ def run(U, rep, tier):
   ends = [(0.0, None), (1.0, None), (0, None), (None, 0.0), (None, 1.0), (0.0, 1.0), (1.0, 0.0)]
   for Tn, Bn in ([(1, 1), (3, 2)] if tier == 'quick' else [(1, 1), (2, 1), (3, 2), (5, 2)]):
     for lam, gam in ends:
+      if host_only:
+        lam, gam = (0.95 if lam is None else lam), (0.99 if gam is None else gam)
       out, ref = one(I, Tn, Bn, lam, gam)
       strip = lambda a: Rat.lift(avn.ATOM_ARGS[a][1][0]) if isinstance(a, avn.Atom) and a.kind == 'stop_gradient' else None
       ok = isinstance(out, (tuple, list)) and len(out) == 2 and all(
